@@ -227,6 +227,10 @@ void collect(const QDomElement &e, QList<QDomElement> &out, int depth, int maxDe
     }
 }
 
+// path separator: a character that cannot occur in a name or namespace (URL namespaces contain '/')
+static const QChar PSEP(0x1f);
+static QString showPath(QString p) { return p.replace(PSEP, QStringLiteral(" / ")); }
+
 QString pathOf(const QDomElement &e, const QDomElement &root)
 {
     QStringList parts;
@@ -241,7 +245,7 @@ QString pathOf(const QDomElement &e, const QDomElement &root)
         parts.prepend(QStringLiteral("%1{%2}[%3]").arg(cur.localName().isEmpty() ? cur.tagName() : cur.localName(), cur.namespaceURI()).arg(idx));
         cur = cur.parentNode().toElement();
     }
-    return parts.join(QLatin1Char('/'));
+    return parts.join(PSEP);
 }
 
 QDomElement findPath(const QDomElement &root, const QString &path)
@@ -250,7 +254,7 @@ QDomElement findPath(const QDomElement &root, const QString &path)
         return root;
     }
     QDomElement cur = root;
-    for (const auto &part : path.split(QLatin1Char('/'))) {
+    for (const auto &part : path.split(PSEP)) {
         const QString name = part.section(QLatin1Char('{'), 0, 0);
         const QString ns = part.section(QLatin1Char('{'), 1).section(QLatin1Char('}'), 0, 0);
         const int want = part.section(QLatin1Char('['), -1).section(QLatin1Char(']'), 0, 0).toInt();
@@ -353,6 +357,9 @@ struct C01 {
         QDomElement e1;
         ++ctx.evaluations;
         const bool parsedOk = roundTrip(c, e0, &o1, &d1, &e1);
+        if (ctx.replay) {
+            fprintf(stderr, "seed  : %s\noutput: %s\n", domToBytes(e0).left(2000).constData(), o1.left(2000).constData());
+        }
         if (o1.trimmed().isEmpty()) {
             ctx.count(QStringLiteral("empty_outputs_skipped"));   // the object has no serialisation at all (e.g. an error without condition)
             return;
@@ -408,7 +415,7 @@ struct C01 {
         // delete / duplicate children at depth 1 and 2 : what is outside the edited child must survive
         for (const auto &el : std::as_const(els)) {
             const QString path = pathOf(el, e1);
-            const int depth = path.isEmpty() ? 0 : path.count(QLatin1Char('/')) + 1;
+            const int depth = path.isEmpty() ? 0 : path.count(PSEP) + 1;
             if (depth == 0 || depth > 2) {
                 continue;
             }
@@ -494,15 +501,15 @@ struct C01 {
             QDomElement r2;
             ++ctx.evaluations;
             ++ctx.nontrivial;
-            const QString site = c.name + QLatin1Char(':') + (path.section(QLatin1Char('/'), -1).section(QLatin1Char('{'), 0, 0)) + QLatin1Char('@') + (attr.isEmpty() ? QStringLiteral("#text") : attr);
+            const QString site = c.name + QLatin1Char(':') + (path.section(PSEP, -1).section(QLatin1Char('{'), 0, 0)) + QLatin1Char('@') + (attr.isEmpty() ? QStringLiteral("#text") : attr);
             if (!roundTrip(c, m2, &out2, &dr2, &r2)) {
-                ctx.violation(QStringLiteral("C01/markup-injection-or-ill-formed-output:") + site, QStringLiteral("value %1 at %2 makes the output ill-formed: %3").arg(v.left(30), sig, QString::fromUtf8(out2.left(300))),
-                              caseJson(QStringLiteral("c01"), seedIdx, c.name, QStringLiteral("text:%1@%2").arg(path, attr), domToBytes(m2)));
+                ctx.violation(QStringLiteral("C01/markup-injection-or-ill-formed-output:") + site, QStringLiteral("value %1 at %2 makes the output ill-formed: %3").arg(v.left(30), showPath(sig), QString::fromUtf8(out2.left(300))),
+                              caseJson(QStringLiteral("c01"), seedIdx, c.name, QStringLiteral("text:%1@%2").arg(showPath(path), attr), domToBytes(m2)));
                 continue;
             }
             if (skeleton(r2) != skel) {
-                ctx.violation(QStringLiteral("C01/markup-injection:") + site, QStringLiteral("value %1 at %2 changes the element structure of the output: %3").arg(v.left(30), sig, QString::fromUtf8(out2.left(300))),
-                              caseJson(QStringLiteral("c01"), seedIdx, c.name, QStringLiteral("text:%1@%2").arg(path, attr), domToBytes(m2)));
+                ctx.violation(QStringLiteral("C01/markup-injection:") + site, QStringLiteral("value %1 at %2 changes the element structure of the output: %3").arg(v.left(30), showPath(sig), QString::fromUtf8(out2.left(300))),
+                              caseJson(QStringLiteral("c01"), seedIdx, c.name, QStringLiteral("text:%1@%2").arg(showPath(path), attr), domToBytes(m2)));
                 continue;
             }
             bool f2 = false;
@@ -510,8 +517,8 @@ struct C01 {
             // attribute values: XML itself normalises nothing here (no tabs/newlines in the alphabet)
             if (!f2 || got != v) {
                 ctx.violation(QStringLiteral("C01/free-text-not-preserved:") + site,
-                              QStringLiteral("site %1 keeps 'zzz' but value '%2' comes back as '%3'").arg(sig, v.left(40), f2 ? got.left(40) : QStringLiteral("(absent)")),
-                              caseJson(QStringLiteral("c01"), seedIdx, c.name, QStringLiteral("text:%1@%2").arg(path, attr), domToBytes(m2)));
+                              QStringLiteral("site %1 keeps 'zzz' but value '%2' comes back as '%3'").arg(showPath(sig), v.left(40), f2 ? got.left(40) : QStringLiteral("(absent)")),
+                              caseJson(QStringLiteral("c01"), seedIdx, c.name, QStringLiteral("text:%1@%2").arg(showPath(path), attr), domToBytes(m2)));
             }
         }
     }
@@ -550,14 +557,14 @@ struct C01 {
             return;
         }
         // monotonicity: every sibling of the edited child (same parent) that is present in M must still be present in the output
-        const QString parentPath = path.contains(QLatin1Char('/')) ? path.section(QLatin1Char('/'), 0, -2) : QString();
+        const QString parentPath = path.contains(PSEP) ? path.section(PSEP, 0, -2) : QString();
         const auto mp = findPath(m, parentPath);
         const auto rp = findPath(r, parentPath);
         if (mp.isNull()) {
             return;
         }
         QStringList want, have;
-        const QString editedTag = path.section(QLatin1Char('/'), -1).section(QLatin1Char('['), 0, 0);
+        const QString editedTag = path.section(PSEP, -1).section(QLatin1Char('['), 0, 0);
         for (auto ch = mp.firstChildElement(); !ch.isNull(); ch = ch.nextSiblingElement()) {
             const QString tag = QStringLiteral("%1{%2}").arg(ch.localName().isEmpty() ? ch.tagName() : ch.localName(), ch.namespaceURI());
             if (tag != editedTag) {
@@ -573,8 +580,8 @@ struct C01 {
             if (!have.contains(w)) {
                 const QString lostTag = w.mid(1, w.indexOf(QLatin1Char('>')) - 1).section(QLatin1Char(' '), 0, 0);
                 ctx.violation(QStringLiteral("C01/sibling-lost-when-%1-%2:%3:%4").arg(del ? QStringLiteral("deleting") : QStringLiteral("duplicating"), editedTag.section(QLatin1Char('{'), 0, 0), c.name, lostTag.section(QLatin1Char('}'), 1)),
-                              QStringLiteral("%1 %2: the unrelated sibling %3 is lost: %4").arg(del ? QStringLiteral("without") : QStringLiteral("with a second"), path, w.left(200), QString::fromUtf8(out.left(300))),
-                              caseJson(QStringLiteral("c01"), seedIdx, c.name, QStringLiteral("%1:%2").arg(del ? QStringLiteral("delete") : QStringLiteral("dup"), path), domToBytes(m)));
+                              QStringLiteral("%1 %2: the unrelated sibling %3 is lost: %4").arg(del ? QStringLiteral("without") : QStringLiteral("with a second"), showPath(path), w.left(200), QString::fromUtf8(out.left(300))),
+                              caseJson(QStringLiteral("c01"), seedIdx, c.name, QStringLiteral("%1:%2").arg(del ? QStringLiteral("delete") : QStringLiteral("dup"), showPath(path)), domToBytes(m)));
                 break;
             }
         }
@@ -713,6 +720,9 @@ struct C02 {
             return o1.trimmed().isEmpty() ? QString() : QStringLiteral("output-not-well-formed");
         }
         const QByteArray o2 = c.roundTrip(e1);
+        if (ctx.replay) {
+            fprintf(stderr, "pass 2: %s\n", o2.left(2000).constData());
+        }
         if (o2 == o1) {
             return {};
         }
@@ -746,7 +756,7 @@ struct C02 {
                     return;
                 }
                 if (edit(d, el)) {
-                    out << qMakePair(op + QLatin1Char(':') + path, domToBytes(d.documentElement()));
+                    out << qMakePair(op + QLatin1Char(':') + showPath(path), domToBytes(d.documentElement()));
                 }
             };
             if (i > 0) {
